@@ -1,7 +1,98 @@
 import FormulaeModel.Driver.Base
+import FormulaeModel.Model.Scanner
+import FormulaeModel.Model.Parser
+import FormulaeModel.Model.Resolver
+import FormulaeModel.Generated.Tables
+import FormulaeModel.Spec.C02
 namespace FormulaeModel.Driver.C02
-open Lean FormulaeModel FormulaeModel.Driver
+open Lean FormulaeModel FormulaeModel.Driver FormulaeModel.Terms FormulaeModel.Resolver
+open FormulaeModel.Spec.C02
 
-def handle (_op : String) (_j : Json) : Option Json := none
+def errTag : Err → String
+  | .typeError => "TypeError" | .valueError => "ValueError" | .attributeError => "AttributeError"
+  | .other => "Other"
+
+def gName (g : GTerm) : String :=
+  (match g.expr with | .intercept => "1" | t => t.name) ++ "|" ++ g.factor.name
+
+def stName (t : STerm) : String := ":".intercalate (t.map Atom.name)
+def sgName (g : SG) : String := (match g.eff with | none => "1" | some t => stName t) ++ "|" ++ stName g.fac
+
+def isSubsetOf (a b : List String) : Bool := a.all b.contains
+
+/-- split at a separator character that is outside brackets and quotes -/
+def splitTop (sep : Char) (s : String) : List String :=
+  let step := fun (st : List String × List Char × Nat × Option Char) (c : Char) =>
+    let (done, cur, depth, q) := st
+    match q with
+    | some qc => (done, c :: cur, depth, if c == qc then none else some qc)
+    | none =>
+      if c == '\'' || c == '"' || c == '`' then (done, c :: cur, depth, some c)
+      else if c == '(' || c == '[' || c == '{' then (done, c :: cur, depth + 1, none)
+      else if c == ')' || c == ']' || c == '}' then (done, c :: cur, depth - 1, none)
+      else if c == sep && depth == 0 then (String.ofList cur.reverse :: done, [], depth, none)
+      else (done, c :: cur, depth, none)
+  let (done, cur, _, _) := s.toList.foldl step ([], [], 0, none)
+  (String.ofList cur.reverse :: done).reverse
+
+def insertStr (x : String) : List String → List String
+  | [] => [x]
+  | y :: ys => if x ≤ y then x :: y :: ys else y :: insertStr x ys
+
+/-- a term name with its factors sorted (the statement speaks of sets of terms; the order of the
+factors inside a term produced by `/`, `*`, `:` is not part of it) -/
+def canonTerm (s : String) : String := ":".intercalate ((splitTop ':' s).foldr insertStr [])
+def canonGroup (s : String) : String := "|".intercalate ((splitTop '|' s).map canonTerm)
+
+def handle (op : String) (j : Json) : Option Json :=
+  match op with
+  | "c02" =>
+    let s := getStr j "s"
+    match Scanner.scan s.toList with
+    | .error _ => some (Json.mkObj [("parse_err", "scan")])
+    | .ok ts =>
+      match Parser.parse Generated.parserTable ts with
+      | .error _ => some (Json.mkObj [("parse_err", "parse")])
+      | .ok e =>
+        let model : Json :=
+          match describe Generated.resolverOps e with
+          | .ok m =>
+            -- GroupSpecificTerm.name raises ValueError unless expr is Intercept/Term and factor a Term
+            if m.group.any (fun g => (match g.factor with | .term _ => false | _ => true) ||
+                                     (match g.expr with | .negIntercept => true | _ => false)) then
+              errJ "name:ValueError"
+            else Json.mkObj [
+              ("response", match m.resp with | some cs => Json.str (CTerm.term cs).name | none => Json.null),
+              ("common", jStrs (m.common.map CTerm.name)),
+              ("group", jStrs (m.group.map gName)),
+              ("sem_ok", match semOfModel m, den e with
+                          | some a, some b => Json.bool (semEq a b)
+                          | _, _ => Json.null)]
+          | .error er => errJ (errTag er)
+        let spec : Json :=
+          match den e with
+          | none => Json.mkObj [("lang", false)]
+          | some d =>
+            let common := (if d.icpt then ["Intercept"] else []) ++ d.common.map stName
+            let group := d.group.map sgName
+            let resp := match d.resp with | some a => Json.str a.name | none => Json.null
+            -- Spec.holds on the implementation's actual output (names)
+            let impl := (j.getObjVal? "impl").toOption.getD Json.null
+            let icRaw := strList impl "common"
+            let igRaw := strList impl "group"
+            let ic := icRaw.map canonTerm
+            let ig := igRaw.map canonGroup
+            let common := common.map canonTerm
+            let group := group.map canonGroup
+            let ir := (impl.getObjVal? "response").toOption.getD Json.null
+            let holds := isSubsetOf ic common && isSubsetOf common ic && isSubsetOf ig group
+              && isSubsetOf group ig && icRaw.length == (Spec.C02.nub icRaw).length
+              && igRaw.length == (Spec.C02.nub igRaw).length && ir == resp
+              && (impl.getObjVal? "err").toOption.isNone
+            Json.mkObj [("lang", true), ("response", resp), ("common", jStrs common),
+                        ("group", jStrs group), ("holds", holds)]
+        some (Json.mkObj [("model", model), ("spec", spec), ("ambiguous_identity", ambiguousIdentity e),
+                          ("classes", jStrs (gapClasses Generated.resolverOps e))])
+  | _ => none
 
 end FormulaeModel.Driver.C02
